@@ -299,6 +299,40 @@ fn recorded_instants(ctx: &Ctx) -> SubReport {
             }
         }
     }
+    // how a failed conversion is reported: the two kinds of failure read differently, as a value and as text, alone and inside rpm::Error
+    {
+        rank += 1;
+        acc.evals += 1;
+        let under = rpm::Timestamp::try_from(std::time::UNIX_EPOCH - std::time::Duration::from_secs(1));
+        let over = rpm::Timestamp::try_from(std::time::UNIX_EPOCH + std::time::Duration::from_secs(1 << 33));
+        let texts = |e: &TimestampError| (format!("{:?}", e), rpm::Error::TimestampConv(*e).to_string());
+        match (under, over) {
+            (Err(u), Err(o)) => {
+                acc.nontrivial += 1;
+                let (ud, ut) = texts(&u);
+                let (od, ot) = texts(&o);
+                if u == o || ud == od || ut == ot {
+                    acc.viol(Violation::new("recorded-instants", format!("an instant before 1970 is reported as {:?} / {:?}, one after 2106 as {:?} / {:?}: the two reports must differ", ud, ut, od, ot), json!({"kind": "error-text"})).sig("clause", "error-report").rank(rank));
+                }
+            }
+            other => acc.viol(Violation::new("recorded-instants", format!("conversions outside the range give {:?}", other.0.is_ok()), json!({"kind": "error-text"})).sig("clause", "error-report").rank(rank)),
+        }
+    }
+    // a source date outside the range must be reported (today: by a panic in the setter), not taken for "no source date"
+    for (what, secs) in [("one second before 1970", -1i64), ("the year 1900", -2_208_988_800), ("one second after the range", 1i64 << 32), ("the year 3000", 32_503_680_000)] {
+        rank += 1;
+        acc.evals += 1;
+        let case = json!({"kind": "source-date", "source_date": what, "seconds": secs});
+        let r = catch(|| rpm::PackageBuilder::new("t", "1", "MIT", "noarch", "s").compression(rpm::CompressionType::None).source_date(chrono::Utc.timestamp_opt(secs, 0).unwrap()).build().map(|p| p.metadata.get_build_time().ok()));
+        match r {
+            Err(_) => acc.count("a source date outside the range is refused by a panic in the setter (the API has no error path; not judged)"),
+            Ok(Err(_)) => acc.count("refused with an error"),
+            Ok(Ok(bt)) => {
+                acc.nontrivial += 1;
+                acc.viol(Violation::new("recorded-instants", format!("a source date of {} is accepted silently (the package's build time is {:?})", what, bt), case).sig("clause", "error-report").rank(rank));
+            }
+        }
+    }
     // signature creation time
     let env = crate::spec::Env::new(&ctx.repo, "c20s");
     let base = crate::corpus::one_file().build(&env).unwrap_or_else(|e| crate::ctx::machinery(&format!("c20: {}", e)));
@@ -338,7 +372,7 @@ fn recorded_instants(ctx: &Ctx) -> SubReport {
             }
         }
     }
-    SubReport::new("recorded-instants", "A", "the other places where a caller's instant is recorded. Changelog entries: 12 seconds from 0 to 2^32−1 × given as integer, as zoned chrono values (one with a sub-second part) and as SystemTime with 999 999 999 ns × source date ∈ {none, 0, 1 600 000 000, 2^32−1}: get_changelog_entries returns the whole second, whatever the source date; three entries of which one has a time outside the range (12 sequences): whatever is built holds only entries that were given. OpenPGP signatures: the same 12 seconds (before and after the signing keys' own creation in 2025) × 2 keys × {sign_with_timestamp, build_and_sign with that source date}: the signature's creation-time subpacket is that second (build_and_sign with a source date in the future: the current time, as documented clamping)", acc)
+    SubReport::new("recorded-instants", "A", "the other places where a caller's instant is recorded. Changelog entries: 12 seconds from 0 to 2^32−1 × given as integer, as zoned chrono values (one with a sub-second part) and as SystemTime with 999 999 999 ns × source date ∈ {none, 0, 1 600 000 000, 2^32−1}: get_changelog_entries returns the whole second, whatever the source date; three entries of which one has a time outside the range (12 sequences): whatever is built holds only entries that were given; the two kinds of failed conversion read differently (as values and as the text of rpm::Error) and a source date outside the range is not accepted silently. OpenPGP signatures: the same 12 seconds (before and after the signing keys' own creation in 2025) × 2 keys × {sign_with_timestamp, build_and_sign with that source date}: the signature's creation-time subpacket is that second (build_and_sign with a source date in the future: the current time, as documented clamping)", acc)
 }
 
 fn builder_path(ctx: &Ctx) -> SubReport {
